@@ -14,6 +14,11 @@ CHECKS = {
     text="TLC model-checks closed forms of the reference semantics on all graphs with <= 4 vertices (Tseitin solution count, even-colouring criterion, clique counts with/without symmetry breaking) and judges every formula the real generators produce for all labelled graphs with <= 4 vertices (5 sampled) and all parameters in range: pointwise Sat(a,F) <=> Object for all 2^n assignments, projection equality for dominating set, sat-equivalence for the Ramsey witness; larger seeded instances on candidate assignments.",
     note="Trusted: the binding of identifiers to index tuples through the formula's variable groups (harness/project.py), TLC, the transcription of the documentation into Families.tla. Bounds recorded in the evidence file. Known finding ramlb:k!=s.",
     ref="DESIGN.md §4 C02"),
+ "C03": dict(
+    technique="documented axiom sets transcribed in TLA+ (Families.tla), model-checked contradictory by TLC on the small scope; implementation clause sets compared with the axiom sets and brute-forced by TLC (trace validation, JudgeFamilies.tla)",
+    text="TLC proves by brute force that the transcribed axiom sets (ordering/graph ordering with all variants on all graphs <= 4 vertices, pebbling on all DAGs <= 4, stone, CPLS) are contradictory and that planted ordering is satisfiable iff the graph is connected; for every instance, small and mid-size, TLC compares the implementation's clause set (as named literals) with Axioms(params): none missing, none extra; small instances are also brute-forced for the documented satisfiability; Ramsey/van der Waerden/Pythagorean formulas are judged pointwise against good colourings over all assignments.",
+    note="Trusted: identifier->index binding via variable groups, TLC, transcription of docstrings/comments into Families.tla. Unsatisfiability beyond ~16-22 variables rests on exact-axioms equality plus the textbook result. Known finding op:n=0.",
+    ref="DESIGN.md §4 C03"),
  "C16": dict(
     technique="implementation-shaped TLA+ state machine (Graphs.tla) model-checked exhaustively by TLC; TLC-generated behaviours replayed into the real classes with every view compared after every call",
     text="TLC explores every reachable state of the implementation-shaped graph machine (vertex counts 0..3/4, all arguments incl. invalid) with invariant ViewsAgree and the no-side-effect action property; every behaviour of depth 2 (3 thorough) and thousands of deeper random walks are replayed into Graph/DirectedGraph/BipartiteGraph, comparing all views and networkx conversions with TLC's expected abstract views after each step.",
